@@ -189,6 +189,7 @@ func runC03(c *Cfg) {
 	mcs = append(mcs, selfLoopThenEndCases()...)
 	mcs = append(mcs, startlessBranchCases()...)
 	mcs = append(mcs, selfEmbeddedCases()...)
+	mcs = append(mcs, lateInnerEdgeCases()...)
 	mcs = append(mcs, longLoopCases()...) // more than a thousand visits: the table alone decides when a run ends
 	parallel(c, len(mcs), func(i int) {
 		judgeFor(c, "C03", "connect-while-running", mcs[i])
